@@ -20,6 +20,12 @@ CHECKS = {
  "C04": dict(tech="runtime monitoring: metamorphic comparison of many drives of one LP (entry point x pricing x scaling x precision x warm start x repeated solves) under sanitizers",
              text="all definitive (status, exact value) pairs observed for the same LP must coincide; explored groups only",
              note="non-definitive stops (iteration limits, UNSOLVED of the pure rational simplex) are excluded as the statement allows"),
+ "C05": dict(tech="runtime monitoring: seeded edit/solve histories on the sanitized library; each re-solve compared with a fresh copy built in the same process, with the certified reference, and every accessor probed after every edit against the exact certificate oracle",
+             text="re-solve == fresh solve and no stale solution, for the explored histories (blocks of 1-5 edits, 4 solvers, basis loads, copy round trips)",
+             note="trusted: reference model semantics (vlib/model.py), oracles; rational simplex runs are bounded to 3000 iterations and limit stops are not compared"),
+ "C06": dict(tech="runtime monitoring: model-conformance checking of edit histories (reference LP store in Python) with full query-API dumps after every step plus an internal sparse-store walker",
+             text="every query function compared with the reference model as exact rationals after every edit of each explored history, incl. histories crossing the 100 rows/100 cols/1000 nz growth thresholds and shrinking to empty",
+             note="explicit zeros stored by change_coef(..,0) are tolerated; refusals of zero-length array queries are tolerated"),
 }
 ENGINES = [
  dict(name="qsdrive", path="harness/qsdrive.c", serves_properties=sorted(CHECKS), kind_free_text="script interpreter over the public API writing a before/after event log; built per flavour (gcc ASan+UBSan, plain) from /repo's working tree by build/mkbuild.py"),
